@@ -229,6 +229,76 @@ func c18(c *core.Check) {
 		r1.Cond(string(letters) == fam, "svg.(*pathParser)."+name+" | family", p.Pos(rf.Pos()), "reflects after "+string(letters), fmt.Sprintf("reflects the control point after %q, SVG gives %q (otherwise the control point is the current point)", string(letters), fam))
 	}
 
+	// smooth commands with several argument groups: each group reflects the control point of the previous one
+	for _, up := range []byte("ST") {
+		if iu, ok := clauseOf[up]; ok {
+			inLoop := false
+			for _, st := range sw.Bodies[iu] {
+				if fs, ok := st.(*ast.ForStmt); ok {
+					txt := p.NodeText(fs.Body)
+					if strings.Contains(txt, "c.lastKey = op") || strings.Contains(txt, "lastKey =") {
+						inLoop = true
+					}
+				}
+			}
+			r1.Cond(inLoop, fmt.Sprintf("addSeg | %c records itself as the previous command inside its loop", up), pos(iu), "lastKey is set in the loop over argument groups", "lastKey is only set after the loop: the second and later argument groups of one command do not reflect the previous control point")
+		}
+	}
+	// viewBox mapping: the origin of the viewBox is translated with the scale actually applied
+	if rt := p.Lookup("svg.preserveAspectRatio.resolveTransforms"); rt == nil {
+		r1.Anchor("svg.preserveAspectRatio.resolveTransforms")
+	} else {
+		nMul := 0
+		core.Instrs(rt, func(in ssa.Instruction) {
+			mul, ok := in.(*ssa.BinOp)
+			if !ok || mul.Op.String() != "*" {
+				return
+			}
+			isOrigin := func(v ssa.Value) string {
+				u, ok := v.(*ssa.UnOp)
+				if !ok {
+					return ""
+				}
+				if u.Op.String() == "-" { // -viewbox.X
+					u, ok = u.X.(*ssa.UnOp)
+					if !ok {
+						return ""
+					}
+				}
+				fa, ok := u.X.(*ssa.FieldAddr)
+				if !ok {
+					return ""
+				}
+				if n := core.FieldName(fa); n == "X" || n == "Y" {
+					return n
+				}
+				return ""
+			}
+			var scale ssa.Value
+			axis := ""
+			if a := isOrigin(mul.X); a != "" {
+				axis, scale = a, mul.Y
+			} else if a := isOrigin(mul.Y); a != "" {
+				axis, scale = a, mul.X
+			} else {
+				return
+			}
+			nMul++
+			final := core.DerivesFrom(scale, func(v ssa.Value) bool {
+				call, ok := v.(*ssa.Call)
+				if !ok || call.Call.StaticCallee() == nil {
+					return false
+				}
+				nm := call.Call.StaticCallee().Name()
+				return nm == "MinF" || nm == "MaxF"
+			})
+			r1.Cond(final, "resolveTransforms | viewBox "+axis+" origin uses the final scale", p.Pos(mul.Pos()), "multiplied by the scale after the meet/slice step", "the viewBox origin is multiplied by the scale computed before the meet/slice step: the content is shifted when the aspect ratios differ")
+		})
+		if nMul < 2 {
+			r1.Unknown("resolveTransforms | viewBox origin", p.Pos(rt.Pos()), fmt.Sprintf("%d products with the viewBox origin found, 2 expected", nMul))
+		}
+	}
+
 	// ---- R2 reference cycles (same decisions as C01.R3 for the SVG instances)
 	r2 := c.Rule("R2", "<use> resolution (by id and by URL) and href inheritance between definitions cannot follow a cycle of references forever", 2)
 	if ru := p.Lookup("svg.(*svgContext).resolveUse"); ru == nil {
